@@ -32,6 +32,8 @@ pub enum Op {
     UnwrapPie,
     UnwrapPieWrongKey,
     UnwrapPwWrongPassword,
+    /// the right password on a copy of the blob whose cost parameters were changed to other valid ones
+    UnwrapPwTamperedParams,
     UnwrapPw,
     SealKey,
     UnsealKey,
@@ -65,6 +67,7 @@ fn op_strategy(heavy_ok: bool) -> impl Strategy<Value = Op> {
         2 => Just(Op::UnwrapPieWrongKey),
         1 => Just(Op::UnwrapPw),
         2 => Just(Op::UnwrapPwWrongPassword),
+        2 => Just(Op::UnwrapPwTamperedParams),
         1 => Just(Op::SealKey),
         1 => Just(Op::UnsealKey),
         1 => Just(Op::UnsealKeyBad),
@@ -104,6 +107,7 @@ struct Expect {
     encrypted_bad: Vec<String>,
     pie: String,
     pw: String,
+    pw_tampered: String,
     sealed: String,
     sealed_bad: String,
     lid: String,
@@ -166,13 +170,29 @@ fn mk_expect<B: Backend>(key: &KeySeed) -> Result<Expect, String> {
         encrypted.push(UnsealedToken::<V<B>, Local, Raw>::new(Raw(m.clone())).with_footer(vec![i as u8; i]).seal(&s.lk, aad).map_err(e)?.to_string());
     }
     let sealed = s.lk.clone().seal(&s.pke_pk).map_err(e)?.to_string();
+    let pw = s.lk.clone().password_wrap_with_params(b"hunter2", &pw_params::<B>(&cheapest_params(B::VER))).map_err(e)?.to_string();
+    // the same blob with the cost field changed to another cheap valid value (iterations 1 -> 2, passes 1 -> 2)
+    let pw_tampered = {
+        let cut = pw.rfind('.').map(|i| i + 1).unwrap_or(0);
+        let mut blob = crate::util::b64_decode(&pw[cut..]).unwrap_or_default();
+        let sl = crate::refmodel::pbkw_salt_len(B::VER);
+        if B::VER.nist() {
+            if blob.len() > sl + 3 {
+                blob[sl + 3] ^= 3; // 1 -> 2 iterations
+            }
+        } else if blob.len() > sl + 11 {
+            blob[sl + 11] ^= 3; // opslimit 1 -> 2
+        }
+        format!("{}{}", &pw[..cut], crate::util::b64_encode(&blob))
+    };
     Ok(Expect {
         signed_bad: signed.iter().enumerate().map(|(i, t)| corrupt(t, i, B::VER.sig_len())).collect(),
         encrypted_bad: encrypted.iter().enumerate().map(|(i, t)| corrupt(t, i, B::VER.local_tag_len())).collect(),
         signed,
         encrypted,
         pie: s.sk.clone().wrap_pie(&s.wk).map_err(e)?.to_string(),
-        pw: s.lk.clone().password_wrap_with_params(b"hunter2", &pw_params::<B>(&cheapest_params(B::VER))).map_err(e)?.to_string(),
+        pw,
+        pw_tampered,
         sealed_bad: flip_last(&sealed),
         sealed,
         lid: s.lk.id().to_string(),
@@ -263,6 +283,10 @@ fn exec<B: Backend>(s: &Shared<B>, x: &Expect, op: Op) -> Result<(), String> {
         Op::UnwrapPwWrongPassword => {
             let w: PasswordWrappedKey<V<B>, Local> = x.pw.parse().map_err(|e| format!("{e}"))?;
             if w.unwrap(b"hunter3").is_err() { Ok(()) } else { Err("unwrapped with the wrong password".into()) }
+        }
+        Op::UnwrapPwTamperedParams => {
+            let w: PasswordWrappedKey<V<B>, Local> = x.pw_tampered.parse().map_err(|e| format!("{e}"))?;
+            if w.unwrap(b"hunter2").is_err() { Ok(()) } else { Err("a blob with changed cost parameters unwrapped".into()) }
         }
         Op::SealKey => {
             let sealed = s.lk.clone().seal(&s.pke_pk).map_err(|e| format!("seal failed: {e}"))?;
@@ -377,7 +401,7 @@ fn run_plan<B: Backend>(p: &Plan, acc: &mut Acc) -> R {
     let ops_total: usize = p.threads.iter().map(|t| t.len()).sum();
     acc.evals_n(ops_total as u64);
     let overlap_clone = p.threads.iter().filter(|t| t.iter().any(|o| matches!(o, Op::CloneUse | Op::CloneDrop))).count() >= 1;
-    let failing = p.threads.iter().flatten().any(|o| matches!(o, Op::VerifyBad(_) | Op::DecryptBad(_) | Op::UnwrapPieWrongKey | Op::UnwrapPwWrongPassword | Op::UnsealKeyBad | Op::DecryptWrongAssertion(_)));
+    let failing = p.threads.iter().flatten().any(|o| matches!(o, Op::VerifyBad(_) | Op::DecryptBad(_) | Op::UnwrapPieWrongKey | Op::UnwrapPwWrongPassword | Op::UnwrapPwTamperedParams | Op::UnsealKeyBad | Op::DecryptWrongAssertion(_)));
     if (n >= 2 && overlap_clone) || (n == 1 && failing) {
         acc.nt(hash_of(p));
     }
@@ -406,7 +430,7 @@ pub fn def() -> PropertyDef {
     PropertyDef {
         id: "C17",
         level: "exploration",
-        rule: "proptest plans: 1..16 real threads x up to 40 operations each over {sign, verify, encrypt, decrypt, PIE wrap/unwrap, password unwrap, key seal/unseal, id, display, public_key, clone-and-use, clone-and-drop, failing variants (corrupted tokens: flipped character / zeroed tag or signature (r = s = 0) / zeroed first half (r = 0) / truncated; wrong assertion, wrong wrapping key, wrong password, corrupted sealed key), yield / spin points} on ONE shared key set started on a barrier; oracle = sequential model: deterministic operations return exactly the value precomputed on a separate copy of the keys, randomised ones verify / decrypt to the original, failing ones fail, nothing panics; after every plan a fixed probe set on the shared keys gives the sequential results (failed operations must not alter a key). Each back end runs in its own child process: a crash (SIGSEGV / SIGABRT / double free) is reported as a violation. Non-trivial iff >= 2 threads with a clone/drop overlapping uses, or a single-thread history containing failing operations",
+        rule: "proptest plans: 1..16 real threads x up to 40 operations each over {sign, verify, encrypt, decrypt, PIE wrap/unwrap, password unwrap, key seal/unseal, id, display, public_key, clone-and-use, clone-and-drop, failing variants (corrupted tokens: flipped character / zeroed tag or signature (r = s = 0) / zeroed first half (r = 0) / truncated; wrong assertion, wrong wrapping key, wrong password, right password on a blob with changed cost parameters, corrupted sealed key), yield / spin points} on ONE shared key set started on a barrier; oracle = sequential model: deterministic operations return exactly the value precomputed on a separate copy of the keys, randomised ones verify / decrypt to the original, failing ones fail, nothing panics; after every plan a fixed probe set on the shared keys gives the sequential results (failed operations must not alter a key). Each back end runs in its own child process: a crash (SIGSEGV / SIGABRT / double free) is reported as a violation. Non-trivial iff >= 2 threads with a clone/drop overlapping uses, or a single-thread history containing failing operations",
         assumptions: vec![
             "the OS scheduler chooses the interleavings (stress exploration, not schedule enumeration); aws-lc and libsodium are not instrumented, so C-side data races are visible only through wrong results or crashes",
         ],
